@@ -75,6 +75,18 @@ def gen_case(rng, big=False):
         base = f ** (ns - 1)
         rows = rng.randrange(7, 11) * base - rng.randrange(0, base)
         cols = rng.randrange(10, 14) * base - rng.randrange(0, base)
+        # coarse sizes at which the coordinate arithmetic of zoom(order=0) lands a few ulps past the last sample
+        # (29, 50 for factor 3): the last row / column of the finer level must still inherit from its parent
+        if f == 3 and rng.random() < 0.35:
+            n = rng.choice([29, 29, 50])
+            fine = n * 3 - rng.randrange(0, 3) if ns == 2 else (n * 3 - rng.randrange(0, 3)) * 3 - rng.randrange(0, 3)
+            if ns == 3 and rng.random() < 0.5:
+                fine = n * 3 - rng.randrange(0, 3)  # the bad size at the intermediate level instead
+            if fine <= 160:
+                if rng.random() < 0.5:
+                    cols = fine
+                else:
+                    rows = fine
     # keep the coarsest interval well inside the coarsest image (an interval reaching past the image is C02's finding)
     base0 = f ** (ns - 1)
     lo = -rng.choice([1, 2, 3]) * base0 + rng.choice([0, 1])
